@@ -122,3 +122,27 @@ Section Pipe.
     split; reflexivity.
   Qed.
 End Pipe.
+
+(* what the library writes: directory entries carry a subtree, regular files a content list — the
+   malformed parent entries (matched directory without subtree => unwrap panic; file with
+   `content: null` => "reused" with no content) cannot stem from a backup *)
+Lemma library_nodes_lemma : forall D chunks tid (e : src D), wf D e ->
+  (n_type (read_all D chunks tid e) = TDir -> n_subtree (read_all D chunks tid e) <> None) /\
+  (n_type (read_all D chunks tid e) = TFile -> n_content (read_all D chunks tid e) <> None).
+Proof.
+  intros D chunks tid [nd d|nd cs] W; cbn [Spec.read_all Spec.wf] in *.
+  - destruct W as [Hty _]. split.
+    + intros H. rewrite leaf_read_type in H. contradiction.
+    + intros H. rewrite leaf_read_type in H. unfold leaf_read. rewrite H. cbn [set_content n_content]. discriminate.
+  - destruct W as [Hty _]. split.
+    + intros _. cbn [set_subtree n_subtree]. discriminate.
+    + intros H. cbn [set_subtree n_type] in H. rewrite Hty in H. discriminate.
+Qed.
+
+Lemma walk_well_bracketed_lemma : forall D anchor (ws : list (wsrc D)) fuel,
+  nonnormal anchor = true -> allP (wfw D) ws -> NoDup (dir_comps D ws) ->
+  (length (flat_map (events_of D) ws) < fuel)%nat ->
+  exists evs, titer D fuel (flat_map (stream_of D anchor) ws) = Some evs /\ balanced D 0 evs = true.
+Proof.
+  intros. eexists. split; [apply tree_iterator_flattening_lemma; assumption|apply forest_balanced].
+Qed.
